@@ -211,6 +211,11 @@ func (s *memoryStore) SetNode(n store.Node) error {
 	s.mu.Lock()
 	defer s.mu.Unlock()
 	node := memNode{Node: n}
+	if existing, ok := s.nodes[n.ID]; ok {
+		// Registering again (a reconnect) keeps the peers tracked so far, as
+		// the persistent store does.
+		node.peers = existing.peers
+	}
 	if node.peers == nil {
 		node.peers = map[store.NodeID]time.Time{}
 	}
